@@ -80,6 +80,58 @@ Proof.
 Qed.
 
 (* ------------------------------------------------------------------ *)
+(* the leaf count (elementTypesCount) is the length of the flattening (elementTypes) *)
+
+Lemma cty_ind' (P : cty -> Prop) :
+  (forall s, P (CS s)) -> (forall n e, P e -> P (CArr n e)) -> (forall fs, Forall P fs -> P (CStruct fs)) ->
+  forall t, P t.
+Proof.
+  intros HS HA HT. fix IH 1. intros [s | n e | fs].
+  - apply HS.
+  - apply HA. apply IH.
+  - apply HT. induction fs as [|f r IHr]; constructor; [apply IH|exact IHr].
+Qed.
+
+Lemma rep_flat_length f L : (forall b, length (f b) = L) ->
+  forall k base stride, length (rep_flat f base stride k) = (k * L)%nat.
+Proof.
+  intros H. induction k as [|k IH]; intros base stride; cbn; [reflexivity|].
+  rewrite app_length, H, IH. reflexivity.
+Qed.
+
+Lemma flat_struct_length_aux (base : N) : forall fs cur,
+  Forall (fun f => forall b, N.of_nat (length (flat b f)) = ecount f) fs ->
+  N.of_nat (length ((fix go (cur : N) (l : list cty) : list (N * scalar) :=
+     match l with
+     | [] => []
+     | f :: r => let o := align_up cur (calign f) in flat (base + o) f ++ go (o + csize f) r
+     end) cur fs)) = fold_right (fun f x => ecount f + x) 0 fs.
+Proof.
+  induction fs as [|f r IH]; intros cur F; [reflexivity|].
+  inversion F as [|? ? Hf Fr]; subst. cbn [fold_right]. rewrite app_length, Nat2N.inj_add, Hf.
+  f_equal. apply IH. exact Fr.
+Qed.
+
+(* elementTypesCount of an array is its length times the count of its element, of a struct the
+   sum over its fields - and that is exactly the number of leaves of the flattening *)
+Lemma flat_length : forall t base, N.of_nat (length (flat base t)) = ecount t.
+Proof.
+  induction t using cty_ind'; intros base.
+  - reflexivity.
+  - cbn [flat ecount].
+    rewrite (rep_flat_length (fun b => flat b t) (N.to_nat (ecount t))).
+    + rewrite Nat2N.inj_mul, !N2Nat.id. reflexivity.
+    + intros b. rewrite <- (IHt b). now rewrite Nat2N.id.
+  - cbn [flat ecount]. apply flat_struct_length_aux. exact H.
+Qed.
+
+Lemma ecount_length t : ecount t = N.of_nat (length (elems t)).
+Proof. unfold elems. rewrite map_length. symmetry. apply flat_length. Qed.
+
+Lemma ecount_array n e : ecount (CArr n e) = n * ecount e.
+Proof. reflexivity. Qed.
+
+(* ------------------------------------------------------------------ *)
 (* a struct laid out like its flattening is indistinguishable from it *)
 
 Lemma scalar_eqb_eq a b : scalar_eqb a b = true -> a = b.
@@ -105,7 +157,8 @@ Lemma flat_equiv_transfer t : flat_equiv t = true ->
 Proof.
   intros E u. destruct (flat_equiv_spec t E) as [E1 [E2 E3]]. fold u in E1, E2, E3.
   assert (EE : elems t = elems u) by (unfold elems; now rewrite E3).
-  unfold gti, sysv, covers, gti. rewrite <- EE, <- E1, <- E2, <- E3. auto.
+  assert (EC : ecount t = ecount u) by (rewrite !ecount_length; now rewrite EE).
+  unfold gti, sysv, covers, gti. rewrite <- EE, <- EC, <- E1, <- E2, <- E3. auto.
 Qed.
 
 Lemma cls_eqb_eq a b : cls_eqb a b = true -> a = b.
@@ -132,12 +185,15 @@ Qed.
 
 Lemma gti_memory t : (2 <= length (elems t))%nat -> (gti t = TPtr <-> 16 < csize t).
 Proof.
-  unfold gti. intros L. destruct (elems t) as [|a [|b r]]; cbn in L; try lia.
-  unfold gti_core. destruct (16 <? csize t) eqn:E.
+  unfold gti, gti_core. intros L. rewrite ecount_length.
+  assert (N2 : N.of_nat (length (elems t)) <? 2 = false) by (apply N.ltb_ge; lia).
+  rewrite N2. destruct (16 <? csize t) eqn:E.
   - apply N.ltb_lt in E. tauto.
   - apply N.ltb_ge in E. split; [|lia].
     destruct (csize t <=? 8); [discriminate|].
-    destruct r; [destruct ((ssz a =? 8) || (ssz b =? 8))|]; discriminate.
+    destruct (N.of_nat (length (elems t)) =? 2); [|discriminate].
+    destruct (elems t) as [|a [|b r]]; try discriminate.
+    destruct ((ssz a =? 8) || (ssz b =? 8)); discriminate.
 Qed.
 
 Lemma sysv_memory t : 16 < csize t -> sysv t = [Memory].
